@@ -117,12 +117,16 @@ def loc_canon_spec(e):
     return (tuple(e["kw"]), errrec._p(e["ip"]), tuple(sorted(loc_canon_spec(c) for c in e["ctx"])))
 
 
-def run_real(d, S, store, instances, via_handler=False):
+def run_real(d, S, store, instances, via_handler=False, foreign_base=False):
     """errors of each instance on ONE validator with a tracing resolver; (list of (obs list | exception name), events).
     via_handler: the other documents are not supplied in the store but obtained through a retrieval handler"""
     cls = _setup()[d]
     js = import_lib()
-    if via_handler and store:
+    if foreign_base:
+        # a resolver supplied by the caller, constructed with a base URI of the caller's choosing (where the document was
+        # found, say): the document's own id still is the base of everything inside it
+        res = _TR("http://elsewhere.invalid/tree/doc.json", S, store=copy.deepcopy(store))
+    elif via_handler and store:
         # the first retrieval of every document fails (the network hiccups once); a first pass over the instances may
         # therefore end in RefResolutionError -- afterwards every reference designates its target as if nothing had been
         h = tracing.CountingHandler(store)
@@ -131,7 +135,7 @@ def run_real(d, S, store, instances, via_handler=False):
     else:
         res = _TR.from_schema(S, id_of=cls.ID_OF, store=copy.deepcopy(store))
     v = cls(S, resolver=res)
-    if via_handler and store:
+    if via_handler and store and not foreign_base:
         for I in instances:
             try:
                 list(v.iter_errors(I))
@@ -158,7 +162,8 @@ def replay_one(task):
     d, ex = task
     S, inl = dec(ex["S"]), dec(ex["inl"])
     store = {dec_str(m["u"]): dec(m["doc"]) for m in ex["more"]}
-    got, events = run_real(d, S, store, _INST, via_handler=(len(repr(S)) % 2 == 0))
+    safe = ex.get("arr") in ("local", "storeabs", "storerel", "storeownid", "chain", "arrayelem", "nestedrel", "mixed", "pctsep", "claimed", "otherid")
+    got, events = run_real(d, S, store, _INST, via_handler=(len(repr(S)) % 2 == 0), foreign_base=(safe and len(repr(S)) % 3 == 0))
     got_inl, _ = run_real(d, inl, {}, _INST)
     probs = []
     for i, (g, gi, want) in enumerate(zip(got, got_inl, ex["e"])):
